@@ -1,7 +1,7 @@
 -------------------------- MODULE Trace_Container ---------------------------
 (***************************************************************************)
 (* Acceptor for operation histories executed on real pyasn1 container      *)
-(* objects (C19).  One trace = [id, kind ("so" | "ch" | "sq"), ev]; one    *)
+(* objects (C19).  One trace = [id, kind ("so"|"ch"|"sq"|"st"), ev]; one   *)
 (* event = one public API call with its outcome and the object's           *)
 (* projection afterwards:                                                  *)
 (*   [o, i, v, res ("ok" | "lookup" | "pyasn1" | "crash"), ret, isv, len,  *)
@@ -24,15 +24,17 @@ SQType == [k |-> "seq", tags |-> <<>>, comps |-> << [name |-> "a", t |-> IntT, m
                                                      [name |-> "b", t |-> IntTag(0), mode |-> "opt"],
                                                      [name |-> "c", t |-> IntTag(1), mode |-> "def", dflt |-> SmallInt(DfltC)] >>]
 
+STType == [SQType EXCEPT !.k = "set"]
 InitOf(k) == IF k = "so" THEN SOInit ELSE IF k = "ch" THEN CHInit ELSE SQInit
-ApplyOf(k, s, op) == IF k = "so" THEN ApplySO(s, op) ELSE IF k = "ch" THEN ApplyCH(s, op) ELSE ApplySQ(s, op)
+ApplyOf(k, s, op) == IF k = "so" THEN ApplySO(s, op) ELSE IF k = "ch" THEN ApplyCH(s, op)
+                     ELSE IF k = "st" THEN ApplyST(s, op) ELSE ApplySQ(s, op)
 IsValueOf(k, s) == IF k = "so" THEN SOIsValue(s) ELSE IF k = "ch" THEN s.cur # 0 ELSE SQIsValue(s)
 LenOf(k, s) == IF k = "so" THEN Len(s.el) ELSE IF k = "ch" THEN (IF s.cur = 0 THEN 0 ELSE 1) ELSE NComp
 ElOf(k, s) == IF k = "so" THEN s.el ELSE IF k = "ch" THEN <<s.cur - 1, s.val>> ELSE SQObs(s)
 DerOf(k, s) ==
   IF k = "so" THEN DER(SOType, [es |-> [i \in 1..Len(s.el) |-> SmallInt(s.el[i])]])
   ELSE IF k = "ch" THEN DER(CHType, [alt |-> s.cur, v |-> SmallInt(s.val)])
-  ELSE DER(SQType, [cs |-> << [p |-> TRUE, v |-> SmallInt(s.f[1])],
+  ELSE DER(IF k = "st" THEN STType ELSE SQType, [cs |-> << [p |-> TRUE, v |-> SmallInt(s.f[1])],
                               IF s.f[2] \in {NONE, PH} THEN [p |-> FALSE] ELSE [p |-> TRUE, v |-> SmallInt(s.f[2])],
                               IF s.f[3] \in {NONE, PH} THEN [p |-> FALSE] ELSE [p |-> TRUE, v |-> SmallInt(s.f[3])] >>])
 
@@ -41,7 +43,7 @@ Reject(t, j, clause) == PrintT(<<"REJECT", Traces[t].id, j, clause>>)
 TraceInit == tid \in 1..Len(Traces) /\ l = 0 /\ st = InitOf(Traces[tid].kind) /\ dead = FALSE
 
 (* len() of a SEQUENCE counts the slots allocated so far, not the declared components: not compared *)
-SameObs(k, e, s) == e.isv = IsValueOf(k, s) /\ (k = "sq" \/ e.len = LenOf(k, s)) /\ e.el = ElOf(k, s)
+SameObs(k, e, s) == e.isv = IsValueOf(k, s) /\ (k \in {"sq", "st"} \/ e.len = LenOf(k, s)) /\ e.el = ElOf(k, s)
 
 Step ==
   /\ l < Len(Traces[tid].ev)
